@@ -68,7 +68,7 @@ type lru struct {
 func checkC13() *checkDef {
 	return &checkDef{
 		ID: "C13", Title: "Size limit enforced by LRU eviction; cleanup removes exactly the expired", Level: "model_checking",
-		LevelText: "Exhaustive enumeration of cache populations (2-4 entries, sizes from {100,300,600} bytes, every access order, every expiry subset) x limits x shard counts x triggers (store on another shard, store on a colliding shard, janitor cycle) with the limit changed at run time through the config event, on the real code under the virtual clock; each outcome is judged by a relational reference written from the property text (nothing evicted below the limit; down to <=80% or until nothing evictable is left; stops at the target; least recently used first within a size class; cleanup removes exactly the expired). Plus all schedules (K preemptions) of a fresh overwrite racing the cleanup scan/removal.",
+		LevelText: "Exhaustive enumeration of cache populations (2-4 entries, sizes from {100,300,600} bytes, every access order, every expiry subset) x limits x shard counts x triggers (store on another shard, store on a colliding shard, janitor cycle) with the limit changed at run time through the config event, on the real code under the virtual clock; each outcome is judged by a relational reference written from the property text (nothing evicted below the limit; down to <=80% or until nothing evictable is left; stops at the target; least recently used first within a size class; cleanup removes exactly the expired). Plus all schedules (K preemptions) of a fresh overwrite racing the cleanup scan/removal. Also all schedules of an eviction (janitor cycle or store-triggered) racing a deletion that frees the bytes itself, with every removal made by the janitor code traced together with the size the cache reported just before it: a removal at or below the target that no concurrent operation excuses is a violation.",
 		LevelNote: "Trusted: instrumenter, virtual clock (1 microsecond tick per Now()), harness view of the entry maps. Entries sharing the triggering store's shard lock are exempt as the property allows. The size-weight constant is deliberately not part of the reference.",
 		Technique: "explicit-state enumeration of populations/triggers on the implementation against a relational reference model + preemption-bounded schedule enumeration",
 		DesignRef: "DESIGN.md section 4 C13, appendix B4",
@@ -222,7 +222,7 @@ func checkC08() *checkDef {
 	return &checkDef{
 		ID: "C08", Title: "Relayed traffic is faithful in both directions", Level: "exploration",
 		Category: "exploration",
-		LevelText: "Bounded-exhaustive feature enumeration through the real http.Server + proxy over in-memory connections and (tunnel harness) the real CONNECT/TLS path: a base GET with every single feature and every compatible pair of ~50 features (7 methods; 9 target shapes incl. %2F, %20, ';', empty query, '//' and dot segments; 11 request header shapes incl. multi-valued, Connection-nominated and all hop-by-hop fields; 3 request bodies incl. chunked and 70 kB; 5 statuses; 8 response header shapes incl. Set-Cookie x3, Link x2, Vary x2; validators absent; 3 response bodies incl. chunked and 70 kB), each judged relayed and, when cacheable, again from the store: method, target as sent, body and end-to-end header multimap (values in order) equal in both directions; hop-by-hop and Connection-nominated fields absent.",
+		LevelText: "Bounded-exhaustive feature enumeration through the real http.Server + proxy over in-memory connections and (tunnel harness) the real CONNECT/TLS path: a base GET with every single feature and every compatible pair of ~50 features (7 methods; 9 target shapes incl. %2F, %20, ';', empty query, '//' and dot segments; 11 request header shapes incl. multi-valued, Connection-nominated and all hop-by-hop fields; 3 request bodies incl. chunked and 70 kB; 5 statuses; 8 response header shapes incl. Set-Cookie x3, Link x2, Vary x2; validators absent; 3 response bodies incl. chunked and 70 kB), each judged relayed and, when cacheable, again from the store: method, target as sent, body and end-to-end header multimap (values in order) equal in both directions; hop-by-hop and Connection-nominated fields absent. Every stored GET case has a third round: the entry has gone stale and the origin has moved on to a version that must not be stored, so the proxy revalidates, cannot keep the answer and fetches again; every upstream request of that exchange must carry the client's end-to-end headers and none but the revalidation may carry a conditional or range header the client did not send.",
 		LevelNote: "Trusted: in-process origin records the request handed to the transport (header names canonicalised by net/http on both sides), the list of proxy-owned response fields excluded from comparison (Via, Age, X-Cache, Cache-Status, Accept-Ranges, Date, framing, Last-Modified, ETag when the origin sent none). Clients always send User-Agent and Accept-Encoding.",
 		Technique: "bounded-exhaustive enumeration (all singles and pairs of request/response features) on the real server stack against a field-by-field fidelity oracle",
 		DesignRef: "DESIGN.md section 4 C08",
@@ -295,7 +295,7 @@ func checkC10() *checkDef {
 func checkC11() *checkDef {
 	return &checkDef{
 		ID: "C11", Title: "Every tunnel gets a valid host-specific certificate from the configured CA", Level: "model_checking",
-		LevelText: "Input enumeration through the real handleCONNECT with a verifying TLS client on the virtual clock: 12 host shapes (DNS, upper case, sub-domain, punycode, underscore, localhost, trailing dot, IPv4 x2, IPv6 x3) x 5 ports: handshake must succeed against the CA pool for exactly that host, the leaf names exactly the host, verifies for server auth at the virtual time, and a request through the tunnel is answered. Plus histories of issuance with clock advances (239 h, 240 h, 240 h + 1 s: reuse while valid, replacement after expiry, never an expired certificate) and all schedules of 2-3 concurrent first requests per host.",
+		LevelText: "Input enumeration through the real handleCONNECT with a verifying TLS client on the virtual clock: 12 host shapes (DNS, upper case, sub-domain, punycode, underscore, localhost, trailing dot, IPv4 x2, IPv6 x3) x 5 ports: handshake must succeed against the CA pool for exactly that host, the leaf names exactly the host, verifies for server auth at the virtual time, and a request through the tunnel is answered. Plus histories of issuance with clock advances (239 h, 240 h, 240 h + 1 s: reuse while valid, replacement after expiry, never an expired certificate) and all schedules of 2-3 concurrent first requests per host. Concurrent issuance: all schedules (K preemptions) of 2 and 3 first requests for one host and for different hosts (two DNS names and an IP literal), with scheduling points in front of the entropy reads, key generation and signing inside issuance; each certificate must name exactly its own host.",
 		LevelNote: "Trusted: crypto/x509 verification, the virtual clock wired into issuance (rule R5) and into the verifying client (tls.Config.Time).",
 		Technique: "bounded-exhaustive input enumeration through the real TLS path + explicit-state enumeration of issuance/expiry histories + preemption-bounded schedule enumeration of concurrent issuance",
 		DesignRef: "DESIGN.md section 4 C11",
@@ -365,7 +365,7 @@ func proxyRaceScenarios() []psched {
 func checkC05() *checkDef {
 	return &checkDef{
 		ID: "C05", Title: "Concurrent identical requests share one origin fetch; each gets a full answer", Level: "model_checking",
-		LevelText: "Stateless exploration of all schedules (K preemptions, F delayed switches) of N=2 (3 thorough) clients calling the real Proxy.ServeHTTP for the same GET, with the first origin response held at a gate until every other thread is blocked (so the clients really overlap in the default schedule, and every deviation explores another arrival order), on a cold, fresh, stale(304) and stale(200) key, with cacheable, no-store and 500 outcomes, slow readers, and a thread that cancels one client's context at any point; both backends. Oracle per schedule: exactly one origin request for a cold/stale cacheable key and none for a fresh one; every client that did not hang up receives the complete current body with the origin's status.",
+		LevelText: "Stateless exploration of all schedules (K preemptions, F delayed switches) of N=2 (3 thorough) clients calling the real Proxy.ServeHTTP for the same GET, with the first origin response held at a soft gate (by default every other thread runs until it blocks, so the clients really overlap at cost 0; releasing the answer while another client is part-way is one deviation), on a cold, fresh, stale(304) and stale(200) key, with cacheable, no-store and 500 outcomes, slow readers, and a thread that cancels one client's context at any point; both backends. Oracle per schedule: exactly one origin request for a cold/stale cacheable key and none for a fresh one; every client that did not hang up receives the complete current body with the origin's status.",
 		LevelNote: "Trusted: instrumenter seams incl. the instrumented copy of x/sync/singleflight, in-memory response writer (mode ii), in-process origin with the context check of a real transport. Write-only metric counters and the read-only policy switches are not scheduling points (listed as demoted).",
 		Technique: "stateless model checking of the implementation: preemption/delay-bounded exhaustive schedule enumeration of concurrent requests with a gated origin",
 		DesignRef: "DESIGN.md section 4 C05",
@@ -414,7 +414,7 @@ func checkC16() *checkDef {
 func checkC17() *checkDef {
 	return &checkDef{
 		ID: "C17", Title: "Saved config reads back identically; CLI overrides win but are not saved", Level: "model_checking",
-		LevelText: "Input enumeration: ByteSize round trip Unmarshal(Marshal(b))==b for every b in [0,2^21] plus unit boundaries and 2^n, 2^n+-1 (n<=62); Parse for every string over {0,1,9,B,K,M,G,T,x,-,SP} up to length 5 plus overflow strings against the reference ^[0-9]+[BKMGT]$ with arbitrary-precision arithmetic. Whole configuration: defaults with every property at each of its boundary values (one deviation) and all pairs of properties, persist -> load -> Read() of all 24 properties equal. Histories over {command-line override, API update x2, restart without flags} up to depth 4 for a property with a live listener, one without and a size: Read() yields the command-line value, the listening component is left with the effective value, the file never holds a command-line value and rules after the restart.",
+		LevelText: "Input enumeration: ByteSize round trip Unmarshal(Marshal(b))==b for every b in [0,2^21] plus unit boundaries and 2^n, 2^n+-1 (n<=62); Parse for every string over {0,1,9,B,K,M,G,T,x,-,SP} up to length 5 plus overflow strings against the reference ^[0-9]+[BKMGT]$ with arbitrary-precision arithmetic. Whole configuration: defaults with every property at each of its boundary values (one deviation) and all pairs of properties, persist -> load -> Read() of all 24 properties equal. Histories over {command-line override, API update x2, restart without flags} up to depth 4 for a property with a live listener, one without and a size: Read() yields the command-line value, the listening component is left with the effective value, the file never holds a command-line value and rules after the restart. Concurrency: all schedules (K=2) of a reader thread against an API update, with and without a command-line override: the reader sees the override at every moment (without one: the old value until the new one, never the old one again), subscribers are handed the effective value, the file gets the saved value.",
 		LevelNote: "Trusted: reflection-based snapshot of all ConfigProp fields, the in-harness listener standing in for logging (the config package cannot import it). The flag-parsing path itself (global flag.CommandLine) is bound through Overwrite, which is what every flag's OnSet calls.",
 		Technique: "bounded-exhaustive value/string enumeration against reference functions + explicit-state enumeration of override/update/restart histories on the implementation",
 		DesignRef: "DESIGN.md section 4 C17",
@@ -461,7 +461,7 @@ func checkC18() *checkDef {
 func checkC20() *checkDef {
 	return &checkDef{
 		ID: "C20", Title: "Dashboard API needs a live session obtained with the right password", Level: "model_checking",
-		LevelText: "Handler under test: the one the web server hands to its listener (captured, i.e. middleware.Harden(mux) with the API registered as main does) over a migrated sqlite database in a scratch directory. Route enumeration: every registered (method, route) read from api.New(cfg).endpoints x 7 methods x 8 dead cookie kinds (absent, empty, random, logged-out, expired by 1 s / 11 min / 2 h on the virtual clock): 401 and no change to config, config file and user row; with a live session no registered route answers 401. Session histories over {login, bad login, request, logout, +49m, +51m, +1h, +1h1s, +2h, +16m (GC sweep)} up to depth 5 against the reference B5 (live from login until logout or expiry; the sliding extension is left free). Login matrix: 6 passwords x 6 stored hashes and 7 malformed stored hashes. Harden matrix: 7 Origin forms x 5 Sec-Fetch-Site values x 7 methods with a counting probe handler.",
+		LevelText: "Handler under test: the one the web server hands to its listener (captured, i.e. middleware.Harden(mux) with the API registered as main does) over a migrated sqlite database in a scratch directory. Route enumeration: every registered (method, route) read from api.New(cfg).endpoints x 7 methods x 8 dead cookie kinds (absent, empty, random, logged-out, expired by 1 s / 11 min / 2 h on the virtual clock): 401 and no change to config, config file and user row; with a live session no registered route answers 401. Session histories over {login, bad login, request, logout, +49m, +51m, +1h, +1h1s, +2h, +16m (GC sweep)} up to depth 5 against the reference B5 (live from login until logout or expiry; the sliding extension is left free). Login matrix: 6 passwords x 6 stored hashes and 7 malformed stored hashes. Harden matrix: 7 Origin forms x 5 Sec-Fetch-Site values x 7 methods with a counting probe handler. Login histories: every sequence of up to three login bodies over 8 shapes (right, wrong, no password field, no user name, empty object, null, null password, truncated JSON): a login succeeds iff its own body carries the user name and the right password, whatever was sent before.",
 		LevelNote: "Trusted: the overlay stub for the generated CSP constant, cheap Argon2 parameters in the stored test hashes (the verification code is the real one), the in-memory response writer. The SSE log stream is exercised only up to its first write (cancelled context).",
 		Technique: "bounded-exhaustive route/method/cookie and header-matrix enumeration + explicit-state enumeration of session histories on the virtual clock against a reference session model",
 		DesignRef: "DESIGN.md section 4 C20, appendix B5",
@@ -604,7 +604,7 @@ var seqAlphabet = []string{"S:a:1", "S:a:7", "S:b:7", "S:c:7", "Se:a:7", "Sf:a:7
 func checkC01() *checkDef {
 	return &checkDef{
 		ID: "C01", Title: "Served bodies are complete, unmixed origin bodies of the requested resource", Level: "model_checking",
-		LevelText: "Cache API layer: all schedules (K preemptions) of a reader that reads in two chunks (with a scheduling point between them and a ReadAt cross-check) against overwrite, failing/empty refresh, delete and a janitor cycle on the same and a colliding key, both backends; every body handed out must be byte-identical to the self-describing body of the (resource, version) its metadata names, with matching size, and a read that began after a replacement/removal completed must not return the replaced version (call/return history check).",
+		LevelText: "Cache API layer: all schedules (K preemptions) of a reader that reads in two chunks (with a scheduling point between them and a ReadAt cross-check) against overwrite, failing/empty refresh, delete and a janitor cycle on the same and a colliding key, both backends; every body handed out must be byte-identical to the self-describing body of the (resource, version) its metadata names, with matching size, and a read that began after a replacement/removal completed must not return the replaced version (call/return history check). Proxy layer: two coalesced clients plus a non-coalesced Range request that replaces the entry by a version of another length between the flight's store and the followers' re-open (all schedules within K/F): body, ETag and Content-Length of every answer must belong to one version.",
 		LevelNote: "Trusted: instrumenter seams; reads of an entry handle are atomic between harness yields (two chunks + ReadAt). Bounds: 2-3 threads, K preemptions, body sizes 20-40 bytes.",
 		Technique: "stateless model checking of the implementation (preemption-bounded schedule enumeration) with a history oracle over self-describing bodies; exhaustive operation-history and fault-point enumeration at the proxy layer",
 		DesignRef: "DESIGN.md section 4 C01",
